@@ -117,14 +117,16 @@ func TestExplore(t *testing.T) {
 			continue
 		}
 		if budget > 0 {
-			// a tuple may use what is left of the budget except a small reserve for each
-			// tuple still to come, so that one large tuple cannot starve all the later ones
-			reserve := time.Duration(budget) * time.Second / time.Duration(4*len(all)) // a quarter of the budget, spread
-			if reserve > 2*time.Second {
-				reserve = 2 * time.Second
+			// budget policy: a tuple may use up to four times its fair share of what is left (small
+			// tuples finish early and give their share back), and never less than two seconds
+			left := time.Until(deadline)
+			if left < 0 {
+				left = 0
 			}
-			left := time.Until(deadline) - time.Duration(len(all)-pi-1)*reserve
-			share := left
+			share := 4 * left / time.Duration(len(all)-pi)
+			if share > left {
+				share = left
+			}
 			if share < 2*time.Second {
 				share = 2 * time.Second
 			}
